@@ -49,6 +49,7 @@ fn code_for(kind: &str) -> Vec<u8> {
         "probe" => asm::probe_runtime(),
         "suicide" => asm::suicide_runtime(),
         "height" => asm::height_runtime(),
+        "envread" => asm::envread_runtime(),
         // init code whose installed runtime is the 32-byte block number it ran in (C17: a simulated creation must
         // return exactly the code the deployment installs)
         "numinit" => return asm::cat(&[&[asm::NUMBER], &asm::push(0), &[asm::MSTORE], &asm::push(32), &asm::push(0), &[asm::RETURN]]),
@@ -306,7 +307,7 @@ fn gen_case(r: &mut Rng, p: &Params, out: &mut Vec<String>) {
         let field = if r.chance(35) { "b64" } else { "hex" };
         let started = match r.below(12) {
             0 | 1 => {
-                let kind = *r.pick(&["store", "log1", "log2", "log3", "log4", "log0", "revert", "burn", "worker", "creator", "probe", "suicide", "badinit", "revinit", "height", "height", "numinit"]);
+                let kind = *r.pick(&["store", "log1", "log2", "log3", "log4", "log0", "revert", "burn", "worker", "creator", "probe", "suicide", "badinit", "revinit", "height", "height", "numinit", "envread", "envread"]);
                 let pk = *r.pick(&PKS);
                 out.push(format!("deploy pk={} code={} {} len=auto txid={} field={}", pk, kind, base, txid, field));
                 if kind != "badinit" && kind != "revinit" {
@@ -852,6 +853,7 @@ fn exec_line(ctx: &mut Ctx, line: &str, out: &mut Out) {
             compare_observations(ctx, out, "after reopen (clear)");
         }
         "read" => exec_read(ctx, &f, out),
+        "pbound" => exec_pbound(ctx, &f, out),
         "golden" => {
             // C02: the observation of this fixed history is pinned for the protocol version (wall-clock fields removed)
             let obs = observation(&ctx.main, ctx);
@@ -901,6 +903,19 @@ fn exec_line(ctx: &mut Ctx, line: &str, out: &mut Out) {
                 out.line(&format!("read kind=predict ncalls=0 ## {}", evs.join(" ## ")), &format!("ok | {}", digest(&ctx.main.state())));
             }
             let (resp, events) = run_on(&ctx.main, &method, &params);
+            // C17: the simulation made right before this transaction and the transaction itself ran in the same
+            // environment, field by field, except timestamp, randomness, gas limit and txid (the reads the property
+            // excludes) - on the real code alone
+            if let (Some(se), Some(te)) = (sim_events.iter().find(|e| e.starts_with("X sim ")), events.iter().find(|e| e.starts_with("X tx "))) {
+                for k in ["caller", "to", "nonce", "gasprice", "value", "txchain", "number", "basefee", "coinbase", "blockgaslimit", "chain", "spec", "custom"] {
+                    let pre = format!("{}=", k);
+                    let get = |e: &String| e.split(' ').find_map(|w| w.strip_prefix(pre.as_str()).map(|x| x.to_string()));
+                    if get(se) != get(te) {
+                        out.oracle_fail(&case, "prediction-env", &format!("eth_call ran with {}{:?} but the transaction that followed ran with {}{:?}: {}", pre, get(se), pre, get(te), line));
+                    }
+                }
+                out.count("prediction-env-compared");
+            }
             let class = err_class(&resp);
             let after = ctx.main.state();
             if resp.panicked {
@@ -1933,6 +1948,200 @@ fn exec_read(ctx: &mut Ctx, f: &BTreeMap<String, String>, out: &mut Out) {
     if let Some((op, ans)) = logsq {
         out.line(&op, &ans);
     }
+}
+
+/// C19: the Prague boundary on a network that has an activation height (the current-txid helper exists "where the
+/// Prague rules are in force, and only there", also for a parked signed transaction that runs later inside another
+/// call).  A scratch instance under `net` is mined up to a few blocks below the activation height `H` (the real
+/// `brc20_mine`; the model is not involved in that part), a probe contract is deployed, and then, on both sides of `H`
+/// and across it: inscription calls, signed transactions, and signed transactions parked in one block and drained in
+/// a later one.  After each, slot 11 of the probe (what the helper answered) is read.  One model line per observation:
+/// `pbound net= park= exec= txid=` answered `seen=<word>`; the model answers from `Forks.prague` alone.
+fn exec_pbound(ctx: &mut Ctx, f: &BTreeMap<String, String>, out: &mut Out) {
+    let case = ctx.case.clone();
+    let net = f.get("net").cloned().unwrap_or("signet".into());
+    let act: u64 = match net.as_str() {
+        "signet" => 275_000,
+        "mainnet" | "bitcoin" => 923_369,
+        _ => return,
+    };
+    eng::configure(&net, true);
+    let chain_id = v::CONFIG.read().chain_id;
+    ctx.n_inst += 1;
+    let dir = ctx.scratch.join(format!("pbound{}", ctx.n_inst));
+    let _ = std::fs::remove_dir_all(&dir);
+    let mut inst = Inst::open(&dir, ctx.rt.clone());
+    let ts0 = 1_700_000_000u64;
+    let fail = |out: &mut Out, what: &str| out.oracle_fail(&case, "pbound-setup", what);
+    let start = act - 9; // blocks 0 .. act-10 are mined empty
+    let r = inst.call("brc20_mine", json!([start, ts0]));
+    if r.err.is_some() || r.panicked {
+        fail(out, &format!("brc20_mine({}) under {} failed: {:?}", start, net, r.err));
+        inst.close();
+        let _ = std::fs::remove_dir_all(&dir);
+        eng::configure("regtest", true);
+        return;
+    }
+    let sel = keccak256(b"getTxId()")[..4].to_vec();
+    let mut bn = start; // the block under construction
+    let mut idx = 0u64;
+    let mut insc = 0u64;
+    let hash_of = |b: u64| h256(0x5000_0000 + b);
+    let slot11 = |inst: &Inst, addr: &str| inst.call("eth_getStorageAt", json!([addr, "0xb"])).ok.and_then(|v| v.as_str().map(|s| s.trim_start_matches("0x").to_string())).unwrap_or_default();
+    // deploy the probe in block act-9
+    insc += 1;
+    let code = code_for("probe");
+    let r = inst.call("brc20_deploy", json!([PKS[0], format!("0x{}", hex::encode(&code)), Value::Null, ts0 + bn, hash_of(bn), idx, format!("pb{}", insc), code.len() as u64 + 200, h256(0xd00)]));
+    let probe = r.ok.as_ref().and_then(|v| v["contractAddress"].as_str().map(|s| s.to_lowercase())).unwrap_or_default();
+    if probe.is_empty() {
+        fail(out, &format!("probe deployment under {} failed: {:?}", net, r.err));
+        inst.close();
+        let _ = std::fs::remove_dir_all(&dir);
+        eng::configure("regtest", true);
+        return;
+    }
+    idx += 1;
+    let probe_addr: Address = probe.parse().unwrap_or(Address::ZERO);
+    // helpers working on (inst, bn, idx)
+    macro_rules! finalise {
+        () => {{
+            let r = inst.call("brc20_finaliseBlock", json!([ts0 + bn, hash_of(bn), idx]));
+            if r.err.is_some() {
+                fail(out, &format!("finalise of block {} failed: {:?}", bn, r.err));
+            }
+            bn += 1;
+            idx = 0;
+        }};
+    }
+    macro_rules! upto {
+        ($h:expr) => {{
+            while bn < $h {
+                finalise!();
+            }
+        }};
+    }
+    macro_rules! transact {
+        ($signer:expr, $nonce:expr, $txid:expr) => {{
+            // the selector, then a byte per signer: before the RLP-hash rule a signed transaction's hash does not
+            // cover its signer, so identical (nonce, target, data) of two signers collide (known finding F21, probed
+            // separately below)
+            let mut data = sel.clone();
+            data.push($signer as u8);
+            let raw = Signer::new($signer).raw_tx(Some(chain_id), $nonce, Some(probe_addr), &data);
+            insc += 1;
+            let r = inst.call("brc20_transact", json!([format!("0x{}", hex::encode(&raw)), Value::Null, ts0 + bn, hash_of(bn), idx, format!("pb{}", insc), raw.len() as u64 + 400, $txid]));
+            let n = r.ok.as_ref().and_then(|v| v.as_array().map(|a| a.len() as u64)).unwrap_or(0);
+            idx += n;
+            (n, r)
+        }};
+    }
+    let observe = |out: &mut Out, inst: &Inst, kind: &str, park: u64, exec: u64, txid: &str| {
+        let seen = slot11(inst, &probe);
+        // the property, judged on the real code alone
+        let want = if exec >= act { txid.trim_start_matches("0x").to_string() } else { format!("{:064x}", 0) };
+        if seen != want {
+            out.oracle_fail(&case, "context", &format!("{} on {}: {} parked in block {} and executed in block {} (activation {}): the contract read txid {}, expected {}", kind, net, kind, park, exec, act, seen, want));
+        }
+        out.count("pbound-observed");
+        out.line(&format!("pbound net={} kind={} park={} exec={} txid={}", net, kind, park, exec, txid.trim_start_matches("0x")), &format!("seen={}", seen));
+    };
+    // (1) inscription call before the activation height
+    insc += 1;
+    let t = h256(0xe01);
+    let r = inst.call("brc20_call", json!([PKS[1], probe, Value::Null, format!("0x{}", hex::encode(&sel)), Value::Null, ts0 + bn, hash_of(bn), idx, format!("pb{}", insc), 5000u64, t]));
+    if r.ok.as_ref().map(|v| v["status"].as_str() == Some("0x1")).unwrap_or(false) {
+        idx += 1;
+        observe(out, &inst, "call", bn, bn, &t);
+    } else {
+        fail(out, &format!("probe call before activation failed: {:?} {:?}", r.ok, r.err));
+    }
+    finalise!(); // act-9 done
+    // (2) signer 21: parked at act-8, drained at act-6 (both before)
+    let (tb1, tb0) = (h256(0xb1), h256(0xb0));
+    let park_b = bn;
+    let (n, _) = transact!(21, 1, tb1.clone());
+    if n != 0 { fail(out, "a future-nonce transaction executed at once"); }
+    upto!(act - 6);
+    let (n, _) = transact!(21, 0, tb0.clone());
+    if n == 2 { observe(out, &inst, "parked", park_b, bn, &tb1); } else { fail(out, &format!("drain before activation returned {} receipts", n)); }
+    // (3) signer 22: parked at act-3, drained at act (across)
+    upto!(act - 3);
+    let (ta1, ta0) = (h256(0xa1), h256(0xa0));
+    let park_a = bn;
+    let (n, _) = transact!(22, 1, ta1.clone());
+    if n != 0 { fail(out, "a future-nonce transaction executed at once"); }
+    // a second one parked in the last block before activation
+    upto!(act - 1);
+    let (tc1, tc0) = (h256(0xc1), h256(0xc0));
+    let park_c = bn;
+    let (n, _) = transact!(23, 1, tc1.clone());
+    if n != 0 { fail(out, "a future-nonce transaction executed at once"); }
+    upto!(act);
+    let (n, _) = transact!(22, 0, ta0.clone());
+    if n == 2 { observe(out, &inst, "parked", park_a, bn, &ta1); } else { fail(out, &format!("drain at activation returned {} receipts", n)); }
+    let (n, _) = transact!(23, 0, tc0.clone());
+    if n == 2 { observe(out, &inst, "parked", park_c, bn, &tc1); } else { fail(out, &format!("second drain at activation returned {} receipts", n)); }
+    // (4) direct signed transaction and inscription call at the activation height
+    let td = h256(0xd1);
+    let (n, _) = transact!(24, 0, td.clone());
+    if n == 1 { observe(out, &inst, "signed", bn, bn, &td); }
+    insc += 1;
+    let t = h256(0xe02);
+    let r = inst.call("brc20_call", json!([PKS[1], probe, Value::Null, format!("0x{}", hex::encode(&sel)), Value::Null, ts0 + bn, hash_of(bn), idx, format!("pb{}", insc), 5000u64, t]));
+    if r.ok.as_ref().map(|v| v["status"].as_str() == Some("0x1")).unwrap_or(false) {
+        idx += 1;
+        observe(out, &inst, "call", bn, bn, &t);
+    }
+    // (5) signer 25: parked and drained after the activation height
+    upto!(act + 1);
+    let (tf1, tf0) = (h256(0xf1), h256(0xf0));
+    let park_f = bn;
+    let (n, _) = transact!(25, 1, tf1.clone());
+    if n != 0 { fail(out, "a future-nonce transaction executed at once"); }
+    upto!(act + 2);
+    let (n, _) = transact!(25, 0, tf0.clone());
+    if n == 2 { observe(out, &inst, "parked", park_f, bn, &tf1); } else { fail(out, &format!("drain after activation returned {} receipts", n)); }
+    finalise!();
+    // (6) two signers park identical (nonce, target, data) in the same block, each with its own txid; the first is
+    // drained: it must see its own txid.  Under the legacy signing-hash rule (mainnet below 929 000) both have the
+    // same transaction hash and the txid row of the first is overwritten by the second: known finding F21.
+    {
+        let same = cat_sel(&sel, 0x77);
+        let (t26, t27) = (h256(0x2601), h256(0x2701));
+        let park = bn;
+        for (sg, t) in [(26u8, &t26), (27u8, &t27)] {
+            let raw = Signer::new(sg).raw_tx(Some(chain_id), 1, Some(probe_addr), &same);
+            insc += 1;
+            let r = inst.call("brc20_transact", json!([format!("0x{}", hex::encode(&raw)), Value::Null, ts0 + bn, hash_of(bn), idx, format!("pb{}", insc), raw.len() as u64 + 400, t]));
+            if r.ok.as_ref().and_then(|v| v.as_array().map(|a| a.len())).unwrap_or(9) != 0 {
+                fail(out, "a future-nonce transaction executed at once");
+            }
+        }
+        finalise!();
+        let (n, _) = transact!(26, 0, h256(0x2600));
+        if n == 2 {
+            let seen = slot11(&inst, &probe);
+            if seen != t26.trim_start_matches("0x") {
+                let fam = if seen == t27.trim_start_matches("0x") && v::fork_rules(park).1 == false { "context-legacy-signing-hash" } else { "context" };
+                out.oracle_fail(&case, fam, &format!("on {}: two signers parked identical (nonce, target, data) in block {} with txids {} and {}; the first one, executed in block {}, read txid {}", net, park, t26, t27, bn, seen));
+            }
+            out.count("pbound-observed");
+            out.line(&format!("pbound net={} kind=collide park={} exec={} txid={} other={}", net, park, bn, t26.trim_start_matches("0x"), t27.trim_start_matches("0x")), &format!("seen={}", seen));
+        } else {
+            fail(out, &format!("drain of the colliding pair returned {} receipts", n));
+        }
+        finalise!();
+    }
+    let _ = (idx, bn);
+    inst.close();
+    let _ = std::fs::remove_dir_all(&dir);
+    eng::configure("regtest", true);
+}
+
+fn cat_sel(sel: &[u8], b: u8) -> Vec<u8> {
+    let mut d = sel.to_vec();
+    d.push(b);
+    d
 }
 
 /// C18: the logs returned are exactly the logs of the receipts in range, in chain order
